@@ -121,7 +121,7 @@ func Run(c *Case) *vkit.Outcome {
 		ts     time.Time
 		failAt *ehCall
 	}
-	var wants []want
+	var wants, origs []want
 	for i, ev := range c.Events {
 		tn := "unknown"
 		if ev.Type >= 0 {
@@ -131,6 +131,7 @@ func Run(c *Case) *vkit.Outcome {
 		ts := time.Unix(1700000000+int64(i), int64(i)*1000).UTC()
 		off, _ := store.Append(ctx, &eventbus.Event{Type: tn, Data: orig, Timestamp: ts})
 		w := want{typ: tn, data: orig, off: off, ts: ts}
+		origs = append(origs, w)
 		// model walk
 		cur := ev.Type
 		var trail []int
@@ -205,6 +206,22 @@ func Run(c *Case) *vkit.Outcome {
 				}
 			}
 		}
+	}
+	// an upcasting replay is a read: a plain Replay afterwards still shows
+	// every event as it was stored
+	j := 0
+	perr := bus.Replay(ctx, eventbus.OffsetOldest, func(se *eventbus.StoredEvent) error {
+		if j < len(origs) {
+			w := origs[j]
+			if se.Type != w.typ || !vkit.JSONEqual(se.Data, w.data) || se.Offset != w.off {
+				o.Failf("", "after ReplayWithUpcast the store shows event %d as type %q data %s; it was stored as type %q data %s", j, se.Type, se.Data, w.typ, w.data)
+			}
+		}
+		j++
+		return nil
+	})
+	if perr != nil || j != len(origs) {
+		o.Failf("", "plain Replay after the upcasting replay: %d of %d events, err %v", j, len(origs), perr)
 	}
 	return o
 }
